@@ -223,6 +223,17 @@ impl<'a> RefVm<'a> {
         None
     }
 
+    /// an access through an exact pointer into region `id` that lands inside a DIFFERENT region
+    /// only works by accident of the address-space layout: outside the claim
+    fn crosses(&self, base: Taint, addr: u64, w: u8) -> bool {
+        if let Taint::Rel(id) = base {
+            if let Some((ri, _)) = self.find(addr, w as u64) {
+                return self.regions[ri].id != id;
+            }
+        }
+        false
+    }
+
     fn load(&self, addr: u64, w: u8) -> Option<V> {
         let (ri, o) = self.find(addr, w as u64)?;
         let r = &self.regions[ri];
@@ -343,6 +354,9 @@ impl<'a> RefVm<'a> {
                         return Outcome::OutOfClaim("load address tainted");
                     }
                     let addr = base.v.wrapping_add(ins.off as i64 as u64);
+                    if self.crosses(base.t, addr, info.width) {
+                        return Outcome::OutOfClaim("access reaches another region by address adjacency");
+                    }
                     match self.load(addr, info.width) {
                         Some(v) => self.reg[d] = v,
                         None => return Outcome::Oob { pc: this_pc, addr, width: info.width, store: false },
@@ -355,6 +369,9 @@ impl<'a> RefVm<'a> {
                     }
                     let addr = base.v.wrapping_add(ins.off as i64 as u64);
                     let val = if info.shape == Shape::StImm { V::clean(ins.imm as i64 as u64) } else { self.reg[s] };
+                    if self.crosses(base.t, addr, info.width) {
+                        return Outcome::OutOfClaim("access reaches another region by address adjacency");
+                    }
                     if !self.store(addr, info.width, val) {
                         return Outcome::Oob { pc: this_pc, addr, width: info.width, store: true };
                     }
@@ -365,6 +382,9 @@ impl<'a> RefVm<'a> {
                         return Outcome::OutOfClaim("xadd address tainted");
                     }
                     let addr = base.v.wrapping_add(ins.off as i64 as u64);
+                    if self.crosses(base.t, addr, info.width) {
+                        return Outcome::OutOfClaim("access reaches another region by address adjacency");
+                    }
                     let Some(old) = self.load(addr, info.width) else {
                         return Outcome::Oob { pc: this_pc, addr, width: info.width, store: true };
                     };
